@@ -40,6 +40,18 @@ def scenarios(ctx):
     out.append(("hb-rebalance-in-completing", gc.two_members(hb_completing=27, **base), Q))
     out.append(("subscription-change", gc.two_members(topics={"t": 2, "u": 1}, members=[dict(topics=["t"], assignors=["range"], resubscribe=[1.5, ["t", "u"]]),
                                                                                         dict(topics=["t", "u"], assignors=["range"], start=0.7)], **base), Q))
+    # rejoin triggers that land while a SyncGroup is in flight: the partition count of a subscribed topic grows just before /
+    # during the rebalance caused by the second member (metadata refreshed every 500 ms), topic appearing for a pattern
+    for at in ((0.95,) if quick else (0.45, 0.95, 1.05)):
+        out.append((f"partition-growth-{at}", gc.two_members(topics={"t": 2}, grow_at=[at, "t", 3], metadata_max_age_ms=500, **base),
+                    [{"r": 1}, {"p": 1}, {"f": 1}] if quick else [{"r": 1, "p": 1}, {"r": 2}, {"f": 1}]))
+    # the periodic metadata refresh may start at any instant: refresh injected (budget x) while a JoinGroup/SyncGroup is in flight,
+    # after the partition count grew (the regular refresh at 3 s makes every run learn the growth eventually)
+    out.append(("growth-refresh-in-rebalance", gc.two_members(topics={"t": 2}, grow_at=[0.5, "t", 3], metadata_max_age_ms=3000, md_refresh=True,
+                                                              **dict(base, kill=False, coord_move=False)), [{"x": 1, "r": 1}]))
+    out.append(("pattern-new-topic", gc.two_members(topics={"ta": 1}, new_topic_at=[0.95, "tb", 2], metadata_max_age_ms=500,
+                                                    members=[dict(pattern="^t.*", assignors=["range"]),
+                                                             dict(pattern="^t.*", assignors=["range"], start=1.0)], **base), [{"r": 1}, {"p": 1}]))
     return out
 
 
